@@ -51,6 +51,13 @@ Acts(S) ==
       obo == {[a |-> "Sub", s |-> s, t |-> t, mode |-> <<"-">>, chan |-> FALSE, bg |-> FALSE, obo |-> u] : s \in RootSessions, t \in live, u \in Users}
              \cup {[a |-> "Pub", s |-> s, t |-> t, c |-> "c1", noecho |-> FALSE, chan |-> FALSE, obo |-> u] : s \in RootSessions, t \in live, u \in Users}
              \cup {[a |-> "Leave", s |-> s, t |-> t, unsub |-> FALSE, chan |-> FALSE, obo |-> u] : s \in RootSessions, t \in live, u \in Users}
+             \* history and deletions requested by root on behalf of a user (when the property's kinds include them)
+             \cup (IF "GetData" \in Kinds THEN {[a |-> "Get", s |-> s, t |-> t, what |-> "data", since |-> q[1], before |-> q[2], limit |-> q[3], chan |-> FALSE, obo |-> u] :
+                                                 s \in RootSessions, t \in live, u \in Users, q \in {<<0, 0, 0>>, <<2, 0, 0>>, <<0, 0, 2>>}} ELSE {})
+             \cup (IF "GetDel" \in Kinds THEN {[a |-> "Get", s |-> s, t |-> t, what |-> "del", since |-> 0, before |-> 0, limit |-> 0, chan |-> FALSE, obo |-> u] :
+                                                s \in RootSessions, t \in live, u \in Users} ELSE {})
+             \cup (IF "DelMsg" \in Kinds THEN {[a |-> "DelMsg", s |-> s, t |-> t, ranges |-> rg, hard |-> h, chan |-> FALSE, obo |-> u] :
+                                                s \in RootSessions, t \in {x \in live : S.topics[x].delId < MaxDel}, u \in Users, rg \in DelRanges, h \in BOOLEAN} ELSE {})
       sub == {[a |-> "Sub", s |-> s, t |-> t, mode |-> m, chan |-> FALSE, bg |-> FALSE] : s \in Sessions, t \in live, m \in WantModes}
       leave == {[a |-> "Leave", s |-> s, t |-> t, unsub |-> b, chan |-> FALSE] : s \in Sessions, t \in live, b \in BOOLEAN}
       setself == {[a |-> "SetSelf", s |-> s, t |-> t, mode |-> m, chan |-> FALSE] : s \in Sessions, t \in live, m \in WantModes \ {<<"-">>}}
